@@ -344,6 +344,22 @@ pub fn run_cfg(w: &mut World, bs: &Base, c: &Cfg, cx: &mut Cx) {
             let tot: u128 = e2.total.iter().map(|a| a.amount.u128()).sum();
             cx.check("epoch.total_is_forwarded_plus_rolled_over", tot == dist_delta + rolled && e2.id == Uint64::new(2), || format!("epoch 2 total {} but distributor received {} and {} rolled over from epoch 1", tot, dist_delta, rolled));
             let _ = Uint128::zero();
+            // ---- one more epoch after the grace period was raised: epoch 1, already emptied into epoch 2, falls inside
+            // the window again; what is rolled over must be what it still has available (nothing), not its old total
+            w.exec(OWNER, &hub.distributor, &DistExec::UpdateConfig { owner: None, bonding_contract_addr: None, fee_collector_addr: None, grace_period: Some(Uint64::new(2)), distribution_asset: None, epoch_config: None }, &[]).expect("grace period 2");
+            w.advance(DAY_NS, 1);
+            let e1_avail: u128 = epoch_of(w, hub, 1).unwrap().available.iter().map(|a| a.amount.u128()).sum();
+            let dist0 = w.native_balance(&hub.distributor, WHALE);
+            if w.exec(MALLORY, &hub.distributor, &DistExec::NewEpoch {}, &[]).is_ok() {
+                cx.count("newepoch:third_after_grace_increase");
+                let got = w.native_balance(&hub.distributor, WHALE) - dist0;
+                let e3 = epoch_of(w, hub, 3).unwrap();
+                let tot3: u128 = e3.total.iter().map(|a| a.amount.u128()).sum();
+                cx.check("epoch.total_is_forwarded_plus_rolled_over", tot3 == got + e1_avail, || format!("epoch 3 (after raising the grace period to 2) total {} but the distributor received {} and the re-selected epoch 1 had {} available", tot3, got, e1_avail));
+                let all_avail: u128 = (1..=3).map(|i| epoch_of(w, hub, i).unwrap().available.iter().map(|a| a.amount.u128()).sum::<u128>()).sum();
+                let held = w.native_balance(&hub.distributor, WHALE);
+                cx.check("distributor.holds_all_available", held >= all_avail, || format!("distributor holds {} uwhale but the epochs' available amounts add up to {}", held, all_avail));
+            }
         }
     }
 }
